@@ -23,7 +23,7 @@ from .tape import stable_hash
 _real = {
     "stat": os.stat, "lstat": os.lstat, "listdir": os.listdir, "unlink": os.unlink,
     "remove": os.remove, "rename": os.rename, "replace": os.replace,
-    "open": builtins.open, "utime": os.utime, "scandir": os.scandir,
+    "open": builtins.open, "utime": os.utime, "scandir": os.scandir, "os_open": os.open,
 }
 real_open = builtins.open
 real_stat = os.stat
@@ -47,7 +47,7 @@ class Fault:
     """One planned file-system fault.
 
     op:    'stat' | 'open' | 'write' | 'listdir'
-    rel:   path relative to the scratch root ('' = the root itself) or None = any
+    rel:   path relative to the scratch root ('' = the root itself), None = any, or 'prefix*'
     kind:  for stat/open: errno name; for write: 'torn' | 'crash' | 'enospc'
     nth:   fire on the nth matching call (0-based); 'all' = every matching call
     after_listed: only fire once the name was returned by a listdir (C12)
@@ -239,6 +239,7 @@ class FsSeam:
         self.run_seed = run_seed
         self.epoch = 0
         self.faults = []
+        self.fd_paths = {}
         self.listed = set()
         self.open_table = []
         self.crashed_writers = []
@@ -285,7 +286,7 @@ class FsSeam:
         for f in self.faults:
             if f.op != op and not (f.op == "any" and op in ("stat", "open")):
                 continue
-            if f.rel is not None and f.rel != rel:
+            if f.rel is not None and f.rel != rel and not (f.rel.endswith("*") and rel.startswith(f.rel[:-1])):
                 continue
             if f.mode is not None and mode is not None and f.mode != mode:
                 continue
@@ -435,7 +436,35 @@ class FsSeam:
         self._stamp_parent(dst)
         return r
 
+    def w_os_open(self, path, flags, *a, **kw):
+        """Low-level open (tempfile.mkstemp, mailbox): a scheduling point; the descriptor is remembered so
+        that a later open(fd, ...) / os.fdopen(fd) is wrapped like a file opened by name."""
+        rel = self._rel(path) if not kw.get("dir_fd") else None
+        if rel is None:
+            return _real["os_open"](path, flags, *a, **kw)
+        self._yield("open")
+        wr = bool(flags & (os.O_WRONLY | os.O_RDWR))
+        if self.log_ops:
+            self.oplog.append(("open", rel, "w" if wr else "r"))
+        f = self._match("open", rel, mode="w" if wr else "r")
+        if f is not None:
+            if f.kind == "vanish":
+                self._vanish(path)
+            else:
+                raise _mk_oserror(f.kind, path)
+        created = bool(flags & os.O_CREAT) and not os.path.lexists(path)
+        fd = _real["os_open"](path, flags, *a, **kw)
+        self.count("open_w" if wr else "open_r")
+        if created:
+            self._stamp(os.fspath(path), created=True)
+        self.fd_paths[fd] = (os.fspath(path), rel, created)
+        return fd
+
     def w_open(self, file, mode="r", *a, **kw):
+        if isinstance(file, int) and file in self.fd_paths:
+            path, rel, created = self.fd_paths.pop(file)
+            fo = real_open(file, mode, *a, **kw)
+            return SimFile(self, fo, path, rel, mode, created, self.sim.me() if self.sim else None)
         rel = self._rel(file)
         if rel is None:
             return real_open(file, mode, *a, **kw)
@@ -487,6 +516,7 @@ class FsSeam:
         os.replace = self.w_replace
         builtins.open = self.w_open
         io.open = self.w_open
+        os.open = self.w_os_open
 
     def uninstall(self):
         os.stat = _real["stat"]
@@ -498,6 +528,7 @@ class FsSeam:
         os.replace = _real["replace"]
         builtins.open = real_open
         io.open = real_open
+        os.open = _real["os_open"]
         self.uninstalled = True
 
     # ------------------------------------------------------------ checks
